@@ -367,8 +367,14 @@ def rx_from_python(src: str):
             if i < len(body) and body[i] == "+":
                 rx = z3.Plus(rx)
                 i += 1
-            elif i < len(body) and body[i] in "*?":
-                raise ValueError("unsupported quantifier in trim pattern")
+            elif i < len(body) and body[i] == "*":
+                rx = z3.Star(rx)
+                i += 1
+            elif i < len(body) and body[i] == "?":
+                rx = z3.Option(rx)
+                i += 1
+            if i < len(body) and body[i] in "+*?{":
+                raise ValueError("unsupported quantifier in trim pattern (lazy / possessive / counted)")
             parts.append(rx)
         out.append((start, end, z3.Concat(*parts) if len(parts) > 1 else parts[0]))
     return out
